@@ -25,6 +25,7 @@ func registerIntrinsics(e *Engine) {
 	registerCron(e)
 	registerScanner(e)
 	registerJSON(e)
+	registerSort(e)
 	registerMisc2(e)
 	for _, n := range []string{"String", "Int64", "Bool", "Int", "StringValue", "Int64Value", "BoolValue"} {
 		allowExecNames["github.com/go-openapi/swag."+n] = true
@@ -173,6 +174,22 @@ func registerHarness(e *Engine) {
 			}
 			e.Pool2.Put(s2)
 			atomic.AddInt64(&e.Fallbacks, 1)
+		}
+		if r == Unknown && e.SlowPools != nil {
+			// last resort for an assertion: both back ends (and z3 5.x) with a 12x time limit
+			for _, sp := range e.SlowPools {
+				s3 := sp.Get()
+				if q == 0 {
+					r, _ = s3.Check(c.St.PC, nil)
+				} else {
+					r, _ = s3.Check(as, nil)
+				}
+				sp.Put(s3)
+				atomic.AddInt64(&e.Fallbacks, 1)
+				if r != Unknown {
+					break
+				}
+			}
 		}
 		atomic.AddInt64(&e.AssertQ[r], 1)
 		if len(e.SampleQ) < 4 && r == Unsat {
